@@ -3,7 +3,7 @@
 # compiled driver, warm numba's cache (kept outside /repo).
 set -e
 cd "$(dirname "$0")"
-export NUMBA_CACHE_DIR="${NUMBA_CACHE_DIR:-/root/.cache/spherical-verif-numba}"
+. ./nbenv.sh
 /venv/bin/python vlib/py2lean.py > /dev/null
 cd lean
 lake build SphericalVerif driver 2>&1 | tail -3
